@@ -4,6 +4,7 @@ import (
 	"errors"
 	"fmt"
 
+	"github.com/taurusgroup/multi-party-sig/internal/safecbor"
 	"github.com/taurusgroup/multi-party-sig/internal/types"
 	"github.com/taurusgroup/multi-party-sig/pkg/math/curve"
 	"github.com/taurusgroup/multi-party-sig/pkg/party"
@@ -86,15 +87,18 @@ func (sig *PreSignature) VerifySignatureShares(shares map[party.ID]SignatureShar
 }
 
 func (sig *PreSignature) Validate() error {
+	if sig == nil || sig.R == nil || sig.RBar == nil || sig.S == nil || sig.KShare == nil || sig.ChiShare == nil {
+		return errors.New("presignature: missing fields")
+	}
 	if len(sig.RBar.Points) != len(sig.S.Points) {
 		return errors.New("presignature: different number of R,S shares")
 	}
 
 	for id, R := range sig.RBar.Points {
-		if S, ok := sig.S.Points[id]; !ok || S.IsIdentity() {
+		if S, ok := sig.S.Points[id]; !ok || S == nil || S.IsIdentity() {
 			return errors.New("presignature: S invalid")
 		}
-		if R.IsIdentity() {
+		if R == nil || R.IsIdentity() {
 			return errors.New("presignature: RBar invalid")
 		}
 	}
@@ -108,6 +112,16 @@ func (sig *PreSignature) Validate() error {
 		return errors.New("ChiShare or KShare is invalid")
 	}
 	return nil
+}
+
+// UnmarshalCBOR restores a presignature stored with cbor.Marshal. The receiver must come from EmptyPreSignature.
+// Malformed data is an error, and so is data that does not describe a valid presignature.
+func (sig *PreSignature) UnmarshalCBOR(data []byte) error {
+	type plain PreSignature // the same fields, decoded the default way
+	if err := safecbor.Unmarshal(data, (*plain)(sig)); err != nil {
+		return err
+	}
+	return sig.Validate()
 }
 
 func (sig *PreSignature) SignerIDs() party.IDSlice {
